@@ -177,6 +177,21 @@ theorem map_history_wellformed (T : Nat) (hT : legalThreshold T = true) (D : Dig
     (fun o ho => hok o (List.mem_of_mem_take ho)) ⟨hcT, hcL, h3.symm⟩ h1
   exact ⟨g1.1, g1.2, g2.trans h2, by rw [← h4]; exact g3⟩
 
+/-- The same for the histories run against the storage state machine (`E2EM.newS` / `runS`, the
+    setting of `E2EM.mgood_runS` and `E2EM.map_rep_history`): the map component of the run satisfies
+    `MapInvI` w.r.t. the run's allocation counter and keeps the root identifier `⟨addr, 1⟩` — without
+    the `cfg.addr ≠ 0` hypothesis those theorems need. -/
+theorem mapIds_runS {β : Type} (c : Codec (E2EM.MSSlab r) β) (T : Nat) (hT : legalThreshold T = true)
+    (D : DigestFn (r + 1)) (cfg : MCfg) (hcT : cfg.T = T) (hcL : cfg.L = r + 1) (ty : Nat) (seedOf : SlabID → Nat)
+    (ops : List E2EM.MOp) (hok : ∀ op ∈ ops, op.Ok T D) :
+    MapInvI T D (E2EM.runS c cfg (E2EM.newS c cfg.addr ty seedOf) ops).1.1
+      (E2EM.runS c cfg (E2EM.newS c cfg.addr ty seedOf) ops).1.2.ctr ∧
+    (E2EM.runS c cfg (E2EM.newS c cfg.addr ty seedOf) ops).1.1.rootID = ⟨cfg.addr, 1⟩ := by
+  rw [E2EM.runS_fst]
+  have h := map_history_wellformed T hT D cfg hcT hcL ty seedOf ⟨0, [], []⟩ ops hok ops.length
+  rw [List.take_length] at h
+  exact ⟨⟨h.1, h.2.1⟩, h.2.2.1⟩
+
 /-! ## The remaining members of the C05 map family (audit a1, F6) -/
 
 /-- `SetType` keeps `MapInv` and the counter hypothesis; root identifier, entries and count unchanged. -/
@@ -311,8 +326,8 @@ theorem map_access_agree (T : Nat) (hT : legalThreshold T = true) (D : DigestFn 
 section NonVacuity
 open MapExample E2EM
 
-/-- the multi-slab example map of C02 (index-slab root `7.1` over the data slabs `7.3`, `7.2`, one
-    external collision group `7.4`; allocation counter 4) satisfies `MapInvI` -/
+/-- the multi-slab example map of C02 (index-slab root `7.1` over the data slabs `7.3`, `7.4`; one
+    external collision group `7.2` inside the first; allocation counter 4) satisfies `MapInvI` -/
 example : run.1.slabIds = [⟨7, 1⟩, ⟨7, 3⟩, ⟨7, 2⟩, ⟨7, 4⟩] := by decide
 example : run.2.ctr = 4 := by decide
 theorem run_invI : MapInvI 256 D2 run.1 run.2.ctr := ⟨run_good.inv, by decide⟩
